@@ -241,6 +241,17 @@ class Family(object):
             ('CPM.indiv_eta', lambda k: self.CPM.compute_individual_parameters(cth[k], ceta[k], return_eta=True)),
             ('CPM.loglik', lambda k: self.CPM.compute_log_likelihood(cth[k], ceta[k].reshape(3, 2))),
         ]
+        # a pooled parameter with a covariate effect: the hierarchical (reduced) gradient with upstream sensitivities
+        self.CP = chi.CovariatePopulationModel(chi.PooledModel(n_dim=1), chi.LinearCovariateModel(n_cov=1))
+        cp_cov = self._keep('cp cov', np.array([[1.0], [2.0], [3.0]]))
+        cp_th = [self._keep('cp theta', np.array([1.0 + 0.1 * k, 0.5])) for k in range(3)]
+        cp_x = [self._keep('cp x', (th[0] + th[1] * cp_cov[:, 0])[:, np.newaxis].copy()) for th in cp_th]
+        cp_u = self._keep('cp upstream', np.array([[0.3], [0.2], [-0.4]]))
+        calls += [
+            ('CP.sens_reduced', lambda k: self.CP.compute_sensitivities(cp_th[k], cp_x[k], covariates=cp_cov,
+                                                                        dlogp_dpsi=cp_u, reduce=True)),
+            ('CP.sens', lambda k: self.CP.compute_sensitivities(cp_th[k], cp_x[k], covariates=cp_cov, dlogp_dpsi=cp_u)),
+        ]
         # reduced pooled model (the individual values ARE the parameters held in the shared buffer)
         rp2 = chi.ReducedPopulationModel(chi.PooledModel(n_dim=2))
         rp2.fix_parameters({rp2.get_parameter_names()[0]: 7.0})
@@ -281,6 +292,8 @@ class Family(object):
         n_fp = self.FP.n_parameters()
         self.fpx = [self._keep('fpx', np.linspace(0.6, 1.4, n_fp) * (1 + 0.05 * k)) for k in range(3)]
         calls += [('FP.call', lambda k: self.FP(self.fpx[k])), ('FP.S1', lambda k: self.FP.evaluateS1(self.fpx[k]))]
+        # (the filter posterior holds its own copy of the user's mechanistic model)
+        self.derived_independent |= {'FP.call', 'FP.S1'}
         self.calls = calls
         self.named = [('L1', self.L1), ('L2', self.L2), ('P1', self.P1), ('PM', self.PM), ('FP', self.FP)]
         if hasattr(self, 'HP'):
@@ -483,6 +496,25 @@ def check(case):
                 if not core.still_writeable(case, buf, '%s.__call__ / evaluateS1' % label):
                     break
                 buf[j] *= 1.013          # in place: the same array object is passed again
+
+    # the same for a covariate population model: one parameter array and one covariate array updated in place
+    if hasattr(fam, 'CP'):
+        with case.clause('inplace_argument_updates'):
+            th_b = np.array([1.0, 0.5])
+            cv_b = np.array([[1.0], [2.0], [3.0]])
+            eta_b = np.zeros((3, 1))
+            for rnd in range(4):
+                got_p = np.asarray(fam.CP.compute_individual_parameters(th_b, eta_b, covariates=cv_b), dtype=float)
+                want_p = np.asarray(twin.CP.compute_individual_parameters(th_b.copy(), eta_b.copy(), covariates=cv_b.copy()),
+                                    dtype=float)
+                case.close(got_p, want_p, rtol=1e-12, what='individual parameters of a covariate model after %d in-place '
+                                                           'updates of the parameter / covariate arrays' % rnd)
+                case.close(got_p[:, 0], th_b[0] + th_b[1] * cv_b[:, 0], rtol=1e-12,
+                           what='theta + beta * covariate after %d in-place updates' % rnd)
+                if rnd % 2 == 0:
+                    th_b[rnd // 2] *= 1.07
+                else:
+                    cv_b[rnd // 2, 0] += 0.5
 
     with case.clause('returned_results_stable'):
         for what, live, copies in returned:
